@@ -60,7 +60,7 @@ var propMeta = map[string]struct {
 	assume      []string
 }{
 	"C11": {"exploration",
-		"one evaluation = one simulated run: a generated subject (built / loaded / loaded over prior content / archived legacy stream) shared by 2..32 reader tasks with generated unit lists, executed under one seeded schedule (random-walk, PCT, random-quantum round-robin, API-boundary). Non-trivial = at least one preemption strictly inside a unit while another task is parked inside a unit; distinct = distinct hash of the (task, unit kind, site, next task) sequence at context switches, counted over non-trivial runs only. Race-lane workloads are counted separately under race_lane.",
+		"one evaluation = one simulated run: a generated subject (built / loaded / loaded over prior content / archived legacy stream) shared by 2..32 reader tasks with generated unit lists, executed under one seeded schedule (random-walk, PCT, random-quantum round-robin, API-boundary). Non-trivial = at least one preemption strictly inside a unit while another task is parked inside a unit, or at least one unit executed while another task is parked in the middle of a unit (sweep strategy); distinct = distinct hash of the (task, unit kind, site, next task) sequence at context switches, counted over non-trivial runs only. Race-lane workloads are counted separately under race_lane.",
 		[]string{"interleavings are explored at statement granularity under sequential consistency; finer effects are left to the uncontrolled -race lane",
 			"openacid/low bitstr.StrCmpUpto is patched in the scratch copy (unsafe header cast removed): failures that exist only because of that UB are invisible",
 			"a clean batch is evidence, not proof"}},
@@ -181,6 +181,12 @@ func cmdMerge(args []string) {
 		}
 	}
 
+	sweepSites := 0
+	for p := range pairs {
+		if p[1] == -1000 {
+			sweepSites++
+		}
+	}
 	nDistinct := int64(len(distinct))
 	for _, n := range groups {
 		nDistinct += n
@@ -260,7 +266,8 @@ func cmdMerge(args []string) {
 		"sources":             sources,
 		"distinct_schedules_or_cases": nDistinct,
 		"distinct_groups":             len(groups),
-		"preemption_site_pairs":       len(pairs),
+		"preemption_site_pairs":       len(pairs) - sweepSites,
+		"sweep_target_sites_distinct": sweepSites,
 		"unit_overlap_pairs":          overlaps,
 		"other_counters":              other,
 		"skipped_runs":                skipped,
